@@ -266,6 +266,8 @@ SIGNATURES = {
     and sum(1 for ops in threads_of(p) if any(x[0] == "lazy" for x in ops)) >= 2,
     # F22: lazy statics are torn down when the main closure returns
     "lazy-static-dropped-at-main-exit": lambda p, kind, o: verdict(o) == "lazyShutdown" and unjoined_lazy(p),
+    # F11: a failing iteration drops the closure of a thread that never started, and the closure owns a loom handle
+    "unstarted-closure-dropped-outside": lambda p, kind, o: kind == "abort" and has(p, "spawnown"),
     # F12: a leaked raw allocation aborts the process instead of reporting "Allocation leaked"
     "raw-alloc-leak-abort": lambda p, kind, o: kind == "abort" and has(p, "alloc"),
 }
